@@ -418,8 +418,8 @@ func (x *Exec) frameCheck(st *State, env *Env, ghostKeys map[string]bool) {
 		return
 	}
 	for _, k := range sortedKeys2(st.H.M) {
-		if allowed[k] || ghostKeys[k] {
-			continue
+		if allowed[k] {
+			continue // (ghost fields the contract's own ghost statements assign must be listed too: callers havoc only what `modifies` names)
 		}
 		if g := x.frameGoal(st, k); g != "" {
 			x.oblige(st, "frame:"+k, "frame", "not in modifies: unchanged on every object that existed at entry", g)
